@@ -33,6 +33,10 @@ pub enum EncVariant {
     SecretLen { len: usize },
     /// honest secret, token field of this many zero bytes
     TokenZero { len: usize },
+    /// the first `len` bytes of the issued token (0..=31), encrypted to the server key
+    TokenPrefix { len: usize },
+    /// the issued token followed by `extra` more bytes, encrypted to the server key
+    TokenExtended { extra: usize },
 }
 
 #[derive(Clone, Debug, Serialize, Deserialize, PartialEq)]
@@ -57,6 +61,11 @@ pub struct Cut {
 pub enum MutOp {
     /// replace the frame's length prefix by this value (body unchanged)
     OuterLen { v: i32 },
+    /// replace the frame's length prefix by these raw bytes (body unchanged)
+    OuterRaw {
+        #[serde(with = "hexser")]
+        bytes: Vec<u8>,
+    },
     /// keep only the first `keep` bytes of the frame
     Truncate { keep: usize },
     Patch {
@@ -407,6 +416,13 @@ impl<'a> Engine<'a> {
                         bytes = codec::varint(*v);
                         bytes.extend_from_slice(&rest);
                     }
+                    MutOp::OuterRaw { bytes: raw } => {
+                        let mut r = Rd::new(&bytes);
+                        let _ = r.varint();
+                        let rest = bytes[r.p..].to_vec();
+                        bytes = raw.clone();
+                        bytes.extend_from_slice(&rest);
+                    }
                     MutOp::Truncate { keep } => bytes.truncate(*keep),
                     MutOp::Patch { off, bytes: b } => {
                         for (i, x) in b.iter().enumerate() {
@@ -550,6 +566,15 @@ impl<'a> Engine<'a> {
                 (enc_to(&mut rng, &key, &s), enc_to(&mut rng, &key, &token))
             }
             EncVariant::TokenZero { len } => (enc_to(&mut rng, &key, &secret), vec![0u8; *len]),
+            EncVariant::TokenPrefix { len } => {
+                let t = token[..(*len).min(token.len())].to_vec();
+                (enc_to(&mut rng, &key, &secret), enc_to(&mut rng, &key, &t))
+            }
+            EncVariant::TokenExtended { extra } => {
+                let mut t = token.clone();
+                t.extend(rng.bytes(*extra));
+                (enc_to(&mut rng, &key, &secret), enc_to(&mut rng, &key, &t))
+            }
         };
         codec::enc_response_body(&s, &t)
     }
